@@ -160,6 +160,12 @@ func listDynDict(thorough bool) []cty.Value {
 		listOf(cty.Object(map[string]cty.Type{"a": cty.String}), objOf("a", S("x")), objOf("a", S("x"))),
 		listOf(cty.String, S("a"), cty.NullVal(cty.String), cty.NullVal(cty.String)),
 		listOf(cty.DynamicPseudoType, cty.NullVal(cty.DynamicPseudoType)),
+		// a null string next to the empty string; both signs of zero
+		listOf(cty.String, cty.NullVal(cty.String), S("")), listOf(cty.String, S(""), cty.NullVal(cty.String), S("a"), S("")),
+		listOf(cty.Number, cty.Zero, cty.Zero.Negate(), N(1)),
+		// maps of one length whose key sets differ only in keys that hold nulls
+		listOf(cty.Map(cty.String), mapOf(cty.String, "a", cty.NullVal(cty.String), "both", S("x")), mapOf(cty.String, "b", cty.NullVal(cty.String), "both", S("x"))),
+		listOf(cty.Map(cty.String), mapOf(cty.String, "a", cty.NullVal(cty.String)), mapOf(cty.String, "b", cty.NullVal(cty.String)), mapOf(cty.String, "a", cty.NullVal(cty.String))),
 		// numbers that differ only beyond what a float64 can tell apart
 		listOf(cty.Number, parseNum("9007199254740992"), parseNum("9007199254740993"), parseNum("9007199254740992")),
 		listOf(cty.Number, parseNum("0.5"), parseNum("0.50000000000000000001"), parseNum("1000000000000000000000000000001"), parseNum("1000000000000000000000000000000")),
@@ -298,7 +304,13 @@ func init() {
 	})
 	add("coalescelist", stdlib.CoalesceListFunc, nil)
 	add("compact", stdlib.CompactFunc, nil)
-	add("contains", stdlib.ContainsFunc, nil)
+	add("contains", stdlib.ContainsFunc, func(pos int, th bool) []cty.Value {
+		if pos == 1 {
+			return cat(dynDict(th), []cty.Value{S(""), cty.Zero.Negate(),
+				mapOf(cty.String, "b", cty.NullVal(cty.String), "both", S("x")), mapOf(cty.String, "a", cty.NullVal(cty.String))})
+		}
+		return nil
+	})
 	add("distinct", stdlib.DistinctFunc, nil)
 	add("chunklist", stdlib.ChunklistFunc, func(pos int, th bool) []cty.Value {
 		if pos == 1 {
